@@ -136,7 +136,8 @@ H(name="hdr_valid_file_format", crate="kestrel-crypto", mod="decrypt::verif_hdr_
 NOISE_ENV = ["crate::sha256, hkdf_noise, x25519, chapoly_{encrypt,decrypt}_noise as UNINTERPRETED functions (record in the initiator run, replay in the responder run; X25519 replays the commuted pair: DH(a,pub b) = DH(b,pub a))", E_ZERO]
 for _part, _what in (("hash", "the hash chain: five MixHash inputs (h0||prologue, h||rs, h||e, h||enc s, h||enc payload) and the handshake hash"),
                      ("keys", "es = DH(e, rs), ss = DH(s, rs), MixKey chain HKDF(ck, dh) twice, Split = HKDF(ck, empty)"),
-                     ("seal", "s and payload sealed under the es / ss key, nonce 0, AD = h; message = e || enc s || enc payload (128 bytes)")):
+                     ("seal", "s and payload sealed under the es / ss key, nonce 0, AD = h"),
+                     ("msg", "message = e || enc s || enc payload (128 bytes)")):
     H(name="noise_write_lockstep_" + _part, crate="kestrel-crypto", mod="noise::verif_noise", props=["C01", "C05", "C06", "C08"], est_s=500, timeout=3000, mem_gb=24, rlimit_gb=36,
       desc="HandshakeState::{init_x, write_message} trace == Noise_X pattern of the Noise spec; this harness decides " + _what,
       funcs=["noise::HandshakeState::init_x", "noise::HandshakeState::write_message", "noise::HandshakeState::get_pubkey", "noise::SymmetricState::*", "noise::CipherState::*"],
